@@ -128,6 +128,25 @@ def scn_setup(comm, cfile, layout, plot, folder=None, draw=0):
     return [mn, mx, m2]
 
 
+def scn_restart(comm, cfile, folder, plot=False, draw=0):
+    """write a checkpoint with all ranks, then the restart set-up (setupFromFile) with / without a plot-only rank, then layout changes"""
+    import shutil
+    from pygyro.initialisation.setups import setupCylindricalGrid, setupFromFile
+    with warnings.catch_warnings():
+        warnings.simplefilter("ignore")
+        g0, c0, _ = setupCylindricalGrid(layout="v_parallel", constantFile=cfile, comm=comm)
+        if comm.Get_rank() == 0:
+            os.makedirs(folder, exist_ok=True)
+            shutil.copy(cfile, os.path.join(folder, "initParams.json"))
+        comm.Barrier()
+        g0.writeH5Dataset(folder, 0)
+        comm.Barrier()
+        grid, constants, t = setupFromFile(folder, comm=comm, plotThread=plot, drawRank=draw, allocateSaveMemory=True)
+        for l2 in ("flux_surface", "poloidal", "v_parallel"):
+            grid.setLayout(l2)
+        return [float(t), grid.getMax(draw)]
+
+
 def scn_diag(comm, cfile, savestep=3):
     """Driver-like set-up of f and phi, then collect / reduce of the diagnostics."""
     from pygyro.initialisation.setups import setupCylindricalGrid
